@@ -3,9 +3,9 @@ From Coq Require Import ZArith List String Ascii Bool.
 From PJ Require Import Base.Json.
 Import ListNotations.
 Open Scope string_scope.
-Definition error_registry : list (Z * string) := [((-32700)%Z, "ParseError"); ((-32603)%Z, "InternalError"); ((-32602)%Z, "InvalidParamsError"); ((-32601)%Z, "MethodNotFoundError"); ((-32600)%Z, "InvalidRequestError"); ((-32000)%Z, "ServerError")].
-Definition error_messages : list (string * (Z * string)) := [("ParseError", ((-32700)%Z, "Parse error")); ("InternalError", ((-32603)%Z, "Internal error")); ("InvalidParamsError", ((-32602)%Z, "Invalid params")); ("MethodNotFoundError", ((-32601)%Z, "Method not found")); ("InvalidRequestError", ((-32600)%Z, "Invalid Request")); ("ServerError", ((-32000)%Z, "Server error"))].
-Definition error_bases : list (string * list string) := [("ParseError", ["ClientError"; "JsonRpcError"; "BaseError"]); ("InternalError", ["JsonRpcError"; "BaseError"]); ("InvalidParamsError", ["ClientError"; "JsonRpcError"; "BaseError"]); ("MethodNotFoundError", ["ClientError"; "JsonRpcError"; "BaseError"]); ("InvalidRequestError", ["ClientError"; "JsonRpcError"; "BaseError"]); ("ServerError", ["JsonRpcError"; "BaseError"])].
+Definition error_registry : list (Z * string) := [((0)%Z, "HarnessZeroError"); ((3001)%Z, "HarnessAppError"); ((-32700)%Z, "ParseError"); ((-32603)%Z, "InternalError"); ((-32602)%Z, "InvalidParamsError"); ((-32601)%Z, "MethodNotFoundError"); ((-32600)%Z, "InvalidRequestError"); ((-32000)%Z, "ServerError")].
+Definition error_messages : list (string * (Z * string)) := [("HarnessZeroError", ((0)%Z, "zero error")); ("HarnessAppError", ((3001)%Z, "app error")); ("ParseError", ((-32700)%Z, "Parse error")); ("InternalError", ((-32603)%Z, "Internal error")); ("InvalidParamsError", ((-32602)%Z, "Invalid params")); ("MethodNotFoundError", ((-32601)%Z, "Method not found")); ("InvalidRequestError", ((-32600)%Z, "Invalid Request")); ("ServerError", ((-32000)%Z, "Server error"))].
+Definition error_bases : list (string * list string) := [("HarnessZeroError", ["JsonRpcError"; "BaseError"]); ("HarnessAppError", ["JsonRpcError"; "BaseError"]); ("ParseError", ["ClientError"; "JsonRpcError"; "BaseError"]); ("InternalError", ["JsonRpcError"; "BaseError"]); ("InvalidParamsError", ["ClientError"; "JsonRpcError"; "BaseError"]); ("MethodNotFoundError", ["ClientError"; "JsonRpcError"; "BaseError"]); ("InvalidRequestError", ["ClientError"; "JsonRpcError"; "BaseError"]); ("ServerError", ["JsonRpcError"; "BaseError"])].
 Definition ParseError_code : Z := (-32700)%Z.
 Definition ParseError_message : string := "Parse error".
 Definition InvalidRequestError_code : Z := (-32600)%Z.
